@@ -542,7 +542,7 @@ def configs(tier: str):
     for span in ('range', 'list_sym'):
         for L in (2, 3):
             for errors, failures in (('raise', 'raise'), ('ignore', 'raise'), ('skip', 'ignore')):
-                out.append(cfg5(span=span, L=L, errors=errors, failures=failures, presolved=True, faults=True))
+                out.append(cfg5(span=span, L=L, errors=errors, failures=failures, presolved=True, faults=(L == 2 or tier == 'thorough')))
                 out.append(cfg5(span=span, L=L, start='sym', end='sym', errors=errors, failures=failures, presolved=True))
     # tracer-extended models: solve(trace=True) == the sequence of solve_t(trace=True), traces included
     for span in ('range', 'list_sym'):
@@ -587,7 +587,8 @@ def configs(tier: str):
                 out.append(cfg5(span=span, L=3, entry='solve_period', start=lab, stage=stage))
                 out.append(cfg5(span=span, L=3, entry='solve', start=lab, end='none', errors='ignore', failures='ignore', stage=stage))
                 out.append(cfg5(span=span, L=3, entry='solve', start='none', end=lab, errors='ignore', failures='ignore', stage=stage))
-            out.append(cfg5(span=span, L=3, stage=stage, errors='skip', failures='ignore', faults=True))
+            out.append(cfg5(span=span, L=3 if tier == 'thorough' and span == 'range' else 2, stage=stage, errors='skip', failures='ignore', faults=True))
+            out.append(cfg5(span=span, L=3, stage=stage, errors='skip', failures='ignore'))
             if span == 'range':
                 out.append(cfg5(span=span, L=3, stage=stage, lags=1, leads=1, errors='ignore', failures='ignore'))
         out.append(cfg5(span='list_sym', L=2, start='sym', end='sym', stage=stage, errors='ignore', failures='ignore'))
